@@ -229,13 +229,37 @@ int run_managed( int nobs, int rounds, int sched)
       inactive_while_running += bad.load();
       g_round = nullptr;
    }
+   // short-lived objects: the destructor is the join - when it returns, the thread function has run and
+   // finished (an object destroyed before the thread function was scheduled included), and nobody touches the
+   // object afterwards (the function writes into a location the destroyed object does not own; ASan / TSan watch
+   // the object itself)
+   long  dtor_before_finish = 0;
+   for (int r = 0; r < rounds; ++r)
+   {
+      std::atomic< int>  fin{ 0};
+      {
+         celma::common::ManagedThread  mt( [&fin]()
+         {
+            if (fin.load() == 0)
+               ::usleep( 200);
+            fin.store( 1);
+         });
+      }
+      if (fin.load() == 0)
+      {
+         ++dtor_before_finish;
+         // let the stray thread end before the flag goes out of scope
+         for (int k = 0; k < 2000 && fin.load() == 0; ++k)
+            ::usleep( 100);
+      }
+   }
    celma_verif::set_hook( nullptr);
    std::printf( "mode=managed observers=%d rounds=%d sched=%s samples=%ld samples_while_running=%ld "
                 "inactive_while_running=%ld active_after_join=%ld hook_seen=%d hook_timeout=%d "
-                "free_polls=%ld free_polls_active=%ld early_false=%ld\n",
+                "free_polls=%ld free_polls_active=%ld early_false=%ld dtor_before_finish=%ld\n",
                 nobs, rounds, sched == 1 ? "forced" : sched == 2 ? "early" : "free", samples, samples_running,
                 inactive_while_running, active_after_join, g_hook_seen.load(), g_hook_timeout.load(),
-                free_polls, free_polls_active, early_false);
+                free_polls, free_polls_active, early_false, dtor_before_finish);
    return 0;
 }
 
